@@ -1030,3 +1030,571 @@ mod tests {
         assert_eq!(events.lock().unwrap().len(), 0, "expected no new events");
     }
 }
+
+/// Verification hooks (`--cfg nextest_verif`): step the real [`DispatcherContext::handle_event`]
+/// with events described by plain data and read back, after every step, what it emitted through
+/// the callback, the outcome of the oneshot handshake, the `HandleEventResponse` and the state.
+#[cfg(all(nextest_verif, unix))]
+pub mod verif_dispatcher {
+    use super::*;
+    use crate::reporter::{
+        TestOutputDisplay,
+        events::{
+            ExecutionResult,
+            verif_run_stats::{VerifAttempt, execute_status, setup_script_status},
+        },
+    };
+    use std::sync::{Arc, Mutex};
+
+    /// A shutdown signal.
+    #[derive(Clone, Copy, Debug, Eq, PartialEq)]
+    pub enum VerifShutdown {
+        /// SIGHUP
+        Hangup,
+        /// SIGTERM
+        Term,
+        /// SIGQUIT
+        Quit,
+        /// SIGINT
+        Interrupt,
+    }
+
+    impl VerifShutdown {
+        fn to_event(self) -> ShutdownEvent {
+            match self {
+                Self::Hangup => ShutdownEvent::Hangup,
+                Self::Term => ShutdownEvent::Term,
+                Self::Quit => ShutdownEvent::Quit,
+                Self::Interrupt => ShutdownEvent::Interrupt,
+            }
+        }
+
+        fn of_event(event: ShutdownEvent) -> Self {
+            match event {
+                ShutdownEvent::Hangup => Self::Hangup,
+                ShutdownEvent::Term => Self::Term,
+                ShutdownEvent::Quit => Self::Quit,
+                ShutdownEvent::Interrupt => Self::Interrupt,
+            }
+        }
+    }
+
+    /// One `InternalEvent`, described by plain data. Tests and scripts are indexes into the
+    /// vectors the stepper was created with.
+    #[derive(Clone, Copy, Debug)]
+    #[allow(missing_docs)]
+    pub enum VerifInput {
+        SetupScriptStarted { script: usize },
+        SetupScriptSlow { script: usize, will_terminate: bool },
+        SetupScriptFinished { script: usize, result: ExecutionResult },
+        Started { test: usize },
+        Slow { test: usize, attempt: usize, total_attempts: usize, will_terminate: bool },
+        AttemptFailedWillRetry { test: usize, status: VerifAttempt },
+        RetryStarted { test: usize, attempt: usize, total_attempts: usize },
+        Finished { test: usize, status: VerifAttempt },
+        Skipped { test: usize },
+        Shutdown(VerifShutdown),
+        Stop,
+        Continue,
+        InfoSignal { usr1: bool },
+        InputInfo,
+        InputEnter,
+        ReportCancel,
+    }
+
+    /// One `TestEventKind` passed to the callback, reduced to ids, reasons, counters and statistics.
+    #[derive(Clone, Debug)]
+    #[allow(missing_docs)]
+    pub enum VerifEmitted {
+        SetupScriptStarted { script: usize },
+        SetupScriptSlow { script: usize, will_terminate: bool },
+        SetupScriptFinished { script: usize, result: ExecutionResult },
+        TestStarted { test: usize, stats: RunStats, running: usize, cancel_state: Option<CancelReason> },
+        TestSlow { test: usize, attempt: usize, total_attempts: usize, will_terminate: bool },
+        TestAttemptFailedWillRetry { test: usize, status: VerifAttempt },
+        TestRetryStarted { test: usize, attempt: usize, total_attempts: usize },
+        TestFinished {
+            test: usize,
+            statuses: Vec<VerifAttempt>,
+            describe: u8,
+            stats: RunStats,
+            running: usize,
+            cancel_state: Option<CancelReason>,
+        },
+        TestSkipped { test: usize },
+        RunBeginCancel { setup_scripts_running: usize, running: usize, reason: CancelReason },
+        RunBeginKill { setup_scripts_running: usize, running: usize, reason: CancelReason },
+        RunPaused { setup_scripts_running: usize, running: usize },
+        RunContinued { setup_scripts_running: usize, running: usize },
+        InputEnter { stats: RunStats, running: usize, cancel_state: Option<CancelReason> },
+        Other(&'static str),
+    }
+
+    /// What happened to the oneshot channel carried by the event.
+    #[derive(Clone, Copy, Debug, Eq, PartialEq)]
+    pub enum VerifHandshake {
+        /// The event carries no channel.
+        NoChannel,
+        /// The dispatcher sent on the channel (handed the request receiver over / said go ahead).
+        Accepted,
+        /// The dispatcher dropped the sender without sending.
+        Refused,
+    }
+
+    /// The `HandleEventResponse`.
+    #[derive(Clone, Copy, Debug, Eq, PartialEq)]
+    #[allow(missing_docs)]
+    pub enum VerifResponse {
+        None,
+        JobStop,
+        JobContinue,
+        InfoSignalUsr1,
+        InfoSignalInfo,
+        InfoInput,
+        CancelReport,
+        CancelTestFailure,
+        CancelSignalOnce(VerifShutdown),
+        CancelSignalTwice,
+    }
+
+    /// State of the context after a step.
+    #[derive(Clone, Copy, Debug)]
+    #[allow(missing_docs)]
+    pub struct VerifState {
+        pub run_stats: RunStats,
+        pub cancel_state: Option<CancelReason>,
+        pub running: usize,
+        pub setup_scripts_running: usize,
+        /// 0, 1 or 2 shutdown signals seen.
+        pub signal_count: u8,
+        pub paused: bool,
+    }
+
+    /// The result of one step.
+    #[derive(Clone, Debug)]
+    #[allow(missing_docs)]
+    pub struct VerifStep {
+        pub emitted: Vec<VerifEmitted>,
+        pub handshake: VerifHandshake,
+        pub response: VerifResponse,
+        pub state: VerifState,
+    }
+
+    type Callback = Box<dyn FnMut(TestEvent<'static>) + Send>;
+
+    enum Pending {
+        Unit(oneshot::Receiver<UnboundedReceiver<RunUnitRequest<'static>>>),
+        Retry(oneshot::Receiver<()>),
+    }
+
+    /// A `DispatcherContext` that can be stepped from outside the crate.
+    pub struct VerifStepper {
+        cx: DispatcherContext<'static, Callback>,
+        tests: Vec<TestInstance<'static>>,
+        scripts: Vec<(ScriptId, &'static ScriptConfig)>,
+        emitted: Arc<Mutex<Vec<VerifEmitted>>>,
+        pending: Option<Pending>,
+        // request receivers of accepted units are kept alive, as a live unit would
+        unit_channels: Vec<UnboundedReceiver<RunUnitRequest<'static>>>,
+    }
+
+    fn test_index(tests: &[TestInstance<'static>], t: &TestInstance<'_>) -> usize {
+        tests
+            .iter()
+            .position(|x| x.id() == t.id())
+            .unwrap_or(usize::MAX)
+    }
+
+    fn script_index(scripts: &[(ScriptId, &'static ScriptConfig)], id: &ScriptId) -> usize {
+        scripts
+            .iter()
+            .position(|(x, _)| x == id)
+            .unwrap_or(usize::MAX)
+    }
+
+    fn convert(
+        tests: &[TestInstance<'static>],
+        scripts: &[(ScriptId, &'static ScriptConfig)],
+        kind: &TestEventKind<'_>,
+    ) -> VerifEmitted {
+        match kind {
+            TestEventKind::SetupScriptStarted { script_id, .. } => {
+                VerifEmitted::SetupScriptStarted {
+                    script: script_index(scripts, script_id),
+                }
+            }
+            TestEventKind::SetupScriptSlow {
+                script_id,
+                will_terminate,
+                ..
+            } => VerifEmitted::SetupScriptSlow {
+                script: script_index(scripts, script_id),
+                will_terminate: *will_terminate,
+            },
+            TestEventKind::SetupScriptFinished {
+                script_id,
+                run_status,
+                ..
+            } => VerifEmitted::SetupScriptFinished {
+                script: script_index(scripts, script_id),
+                result: run_status.result,
+            },
+            TestEventKind::TestStarted {
+                test_instance,
+                current_stats,
+                running,
+                cancel_state,
+            } => VerifEmitted::TestStarted {
+                test: test_index(tests, test_instance),
+                stats: *current_stats,
+                running: *running,
+                cancel_state: *cancel_state,
+            },
+            TestEventKind::TestSlow {
+                test_instance,
+                retry_data,
+                will_terminate,
+                ..
+            } => VerifEmitted::TestSlow {
+                test: test_index(tests, test_instance),
+                attempt: retry_data.attempt,
+                total_attempts: retry_data.total_attempts,
+                will_terminate: *will_terminate,
+            },
+            TestEventKind::TestAttemptFailedWillRetry {
+                test_instance,
+                run_status,
+                ..
+            } => VerifEmitted::TestAttemptFailedWillRetry {
+                test: test_index(tests, test_instance),
+                status: VerifAttempt::of_status(run_status),
+            },
+            TestEventKind::TestRetryStarted {
+                test_instance,
+                retry_data,
+            } => VerifEmitted::TestRetryStarted {
+                test: test_index(tests, test_instance),
+                attempt: retry_data.attempt,
+                total_attempts: retry_data.total_attempts,
+            },
+            TestEventKind::TestFinished {
+                test_instance,
+                run_statuses,
+                current_stats,
+                running,
+                cancel_state,
+                ..
+            } => VerifEmitted::TestFinished {
+                test: test_index(tests, test_instance),
+                statuses: run_statuses.iter().map(VerifAttempt::of_status).collect(),
+                describe: match run_statuses.describe() {
+                    crate::reporter::events::ExecutionDescription::Success { .. } => 0,
+                    crate::reporter::events::ExecutionDescription::Flaky { .. } => 1,
+                    crate::reporter::events::ExecutionDescription::Failure { .. } => 2,
+                },
+                stats: *current_stats,
+                running: *running,
+                cancel_state: *cancel_state,
+            },
+            TestEventKind::TestSkipped { test_instance, .. } => VerifEmitted::TestSkipped {
+                test: test_index(tests, test_instance),
+            },
+            TestEventKind::RunBeginCancel {
+                setup_scripts_running,
+                running,
+                reason,
+            } => VerifEmitted::RunBeginCancel {
+                setup_scripts_running: *setup_scripts_running,
+                running: *running,
+                reason: *reason,
+            },
+            TestEventKind::RunBeginKill {
+                setup_scripts_running,
+                running,
+                reason,
+            } => VerifEmitted::RunBeginKill {
+                setup_scripts_running: *setup_scripts_running,
+                running: *running,
+                reason: *reason,
+            },
+            TestEventKind::RunPaused {
+                setup_scripts_running,
+                running,
+            } => VerifEmitted::RunPaused {
+                setup_scripts_running: *setup_scripts_running,
+                running: *running,
+            },
+            TestEventKind::RunContinued {
+                setup_scripts_running,
+                running,
+            } => VerifEmitted::RunContinued {
+                setup_scripts_running: *setup_scripts_running,
+                running: *running,
+            },
+            TestEventKind::InputEnter {
+                current_stats,
+                running,
+                cancel_reason,
+            } => VerifEmitted::InputEnter {
+                stats: *current_stats,
+                running: *running,
+                cancel_state: *cancel_reason,
+            },
+            TestEventKind::RunStarted { .. } => VerifEmitted::Other("RunStarted"),
+            TestEventKind::InfoStarted { .. } => VerifEmitted::Other("InfoStarted"),
+            TestEventKind::InfoResponse { .. } => VerifEmitted::Other("InfoResponse"),
+            TestEventKind::InfoFinished { .. } => VerifEmitted::Other("InfoFinished"),
+            TestEventKind::RunFinished { .. } => VerifEmitted::Other("RunFinished"),
+        }
+    }
+
+    impl VerifStepper {
+        /// Creates a context as `TestRunnerInner::execute` does (`max_fail`: `None` = `MaxFail::All`).
+        /// `n_scripts` synthetic setup scripts are created.
+        pub fn new(
+            tests: Vec<TestInstance<'static>>,
+            n_scripts: usize,
+            initial_run_count: usize,
+            max_fail: Option<usize>,
+        ) -> Self {
+            let scripts: Vec<(ScriptId, &'static ScriptConfig)> = (0..n_scripts)
+                .map(|i| {
+                    let id = ScriptId::new(format!("script{i}").into()).expect("valid identifier");
+                    let config: &'static ScriptConfig = Box::leak(Box::new(ScriptConfig {
+                        command: ("true".to_owned(), Vec::new()),
+                        slow_timeout: None,
+                        leak_timeout: None,
+                        capture_stdout: false,
+                        capture_stderr: false,
+                        junit: Default::default(),
+                    }));
+                    (id, config)
+                })
+                .collect();
+            let emitted = Arc::new(Mutex::new(Vec::new()));
+            let callback: Callback = {
+                let emitted = emitted.clone();
+                let tests = tests.clone();
+                let scripts = scripts.clone();
+                Box::new(move |event: TestEvent<'static>| {
+                    emitted
+                        .lock()
+                        .unwrap()
+                        .push(convert(&tests, &scripts, &event.kind));
+                })
+            };
+            let cx = DispatcherContext::new(
+                callback,
+                ReportUuid::new_v4(),
+                "default",
+                Vec::new(),
+                initial_run_count,
+                match max_fail {
+                    Some(n) => MaxFail::Count(n),
+                    None => MaxFail::All,
+                },
+            );
+            Self {
+                cx,
+                tests,
+                scripts,
+                emitted,
+                pending: None,
+                unit_channels: Vec::new(),
+            }
+        }
+
+        fn input_to_event(&mut self, input: VerifInput) -> InternalEvent<'static> {
+            self.pending = None;
+            match input {
+                VerifInput::SetupScriptStarted { script } => {
+                    let (req_rx_tx, req_rx_rx) = oneshot::channel();
+                    self.pending = Some(Pending::Unit(req_rx_rx));
+                    let (id, config) = self.scripts[script].clone();
+                    InternalEvent::Executor(ExecutorEvent::SetupScriptStarted {
+                        script_id: id,
+                        config,
+                        index: script,
+                        total: self.scripts.len(),
+                        req_rx_tx,
+                    })
+                }
+                VerifInput::SetupScriptSlow {
+                    script,
+                    will_terminate,
+                } => {
+                    let (id, config) = self.scripts[script].clone();
+                    InternalEvent::Executor(ExecutorEvent::SetupScriptSlow {
+                        script_id: id,
+                        config,
+                        elapsed: Duration::ZERO,
+                        will_terminate: will_terminate.then_some(Duration::ZERO),
+                    })
+                }
+                VerifInput::SetupScriptFinished { script, result } => {
+                    let (id, config) = self.scripts[script].clone();
+                    InternalEvent::Executor(ExecutorEvent::SetupScriptFinished {
+                        script_id: id,
+                        config,
+                        index: script,
+                        total: self.scripts.len(),
+                        status: setup_script_status(result),
+                    })
+                }
+                VerifInput::Started { test } => {
+                    let (req_rx_tx, req_rx_rx) = oneshot::channel();
+                    self.pending = Some(Pending::Unit(req_rx_rx));
+                    InternalEvent::Executor(ExecutorEvent::Started {
+                        test_instance: self.tests[test],
+                        req_rx_tx,
+                    })
+                }
+                VerifInput::Slow {
+                    test,
+                    attempt,
+                    total_attempts,
+                    will_terminate,
+                } => InternalEvent::Executor(ExecutorEvent::Slow {
+                    test_instance: self.tests[test],
+                    retry_data: crate::reporter::events::RetryData {
+                        attempt,
+                        total_attempts,
+                    },
+                    elapsed: Duration::ZERO,
+                    will_terminate: will_terminate.then_some(Duration::ZERO),
+                }),
+                VerifInput::AttemptFailedWillRetry { test, status } => {
+                    InternalEvent::Executor(ExecutorEvent::AttemptFailedWillRetry {
+                        test_instance: self.tests[test],
+                        failure_output: TestOutputDisplay::Never,
+                        run_status: execute_status(status),
+                        delay_before_next_attempt: Duration::ZERO,
+                    })
+                }
+                VerifInput::RetryStarted {
+                    test,
+                    attempt,
+                    total_attempts,
+                } => {
+                    let (tx, rx) = oneshot::channel();
+                    self.pending = Some(Pending::Retry(rx));
+                    InternalEvent::Executor(ExecutorEvent::RetryStarted {
+                        test_instance: self.tests[test],
+                        retry_data: crate::reporter::events::RetryData {
+                            attempt,
+                            total_attempts,
+                        },
+                        tx,
+                    })
+                }
+                VerifInput::Finished { test, status } => {
+                    InternalEvent::Executor(ExecutorEvent::Finished {
+                        test_instance: self.tests[test],
+                        success_output: TestOutputDisplay::Never,
+                        failure_output: TestOutputDisplay::Never,
+                        junit_store_success_output: false,
+                        junit_store_failure_output: false,
+                        last_run_status: execute_status(status),
+                    })
+                }
+                VerifInput::Skipped { test } => InternalEvent::Executor(ExecutorEvent::Skipped {
+                    test_instance: self.tests[test],
+                    reason: nextest_metadata::MismatchReason::String,
+                }),
+                VerifInput::Shutdown(s) => {
+                    InternalEvent::Signal(SignalEvent::Shutdown(s.to_event()))
+                }
+                VerifInput::Stop => {
+                    InternalEvent::Signal(SignalEvent::JobControl(JobControlEvent::Stop))
+                }
+                VerifInput::Continue => {
+                    InternalEvent::Signal(SignalEvent::JobControl(JobControlEvent::Continue))
+                }
+                VerifInput::InfoSignal { usr1 } => {
+                    InternalEvent::Signal(SignalEvent::Info(if usr1 {
+                        SignalInfoEvent::Usr1
+                    } else {
+                        SignalInfoEvent::Info
+                    }))
+                }
+                VerifInput::InputInfo => InternalEvent::Input(InputEvent::Info),
+                VerifInput::InputEnter => InternalEvent::Input(InputEvent::Enter),
+                VerifInput::ReportCancel => InternalEvent::ReportCancel,
+            }
+        }
+
+        /// The outcome of the handshake of the last event fed, also meaningful after
+        /// `handle_event` panicked.
+        pub fn take_handshake(&mut self) -> VerifHandshake {
+            match self.pending.take() {
+                None => VerifHandshake::NoChannel,
+                Some(Pending::Unit(mut rx)) => match rx.try_recv() {
+                    Ok(req_rx) => {
+                        self.unit_channels.push(req_rx);
+                        VerifHandshake::Accepted
+                    }
+                    Err(_) => VerifHandshake::Refused,
+                },
+                Some(Pending::Retry(mut rx)) => match rx.try_recv() {
+                    Ok(()) => VerifHandshake::Accepted,
+                    Err(_) => VerifHandshake::Refused,
+                },
+            }
+        }
+
+        /// The state of the context.
+        pub fn state(&self) -> VerifState {
+            VerifState {
+                run_stats: self.cx.run_stats(),
+                cancel_state: self.cx.cancel_state,
+                running: self.cx.running(),
+                setup_scripts_running: self.cx.setup_scripts_running(),
+                signal_count: match self.cx.signal_count {
+                    None => 0,
+                    Some(SignalCount::Once) => 1,
+                    Some(SignalCount::Twice) => 2,
+                },
+                paused: self.cx.stopwatch.is_paused(),
+            }
+        }
+
+        /// Feeds one event to the real `handle_event`. May panic where `handle_event` panics;
+        /// `take_handshake` can still be called afterwards.
+        pub fn step(&mut self, input: VerifInput) -> VerifStep {
+            self.emitted.lock().unwrap().clear();
+            let event = self.input_to_event(input);
+            let response = match self.cx.handle_event(event) {
+                HandleEventResponse::None => VerifResponse::None,
+                HandleEventResponse::JobControl(JobControlEvent::Stop) => VerifResponse::JobStop,
+                HandleEventResponse::JobControl(JobControlEvent::Continue) => {
+                    VerifResponse::JobContinue
+                }
+                HandleEventResponse::Info(InfoEvent::Signal(SignalInfoEvent::Usr1)) => {
+                    VerifResponse::InfoSignalUsr1
+                }
+                HandleEventResponse::Info(InfoEvent::Signal(SignalInfoEvent::Info)) => {
+                    VerifResponse::InfoSignalInfo
+                }
+                HandleEventResponse::Info(InfoEvent::Input) => VerifResponse::InfoInput,
+                HandleEventResponse::Cancel(CancelEvent::Report) => VerifResponse::CancelReport,
+                HandleEventResponse::Cancel(CancelEvent::TestFailure) => {
+                    VerifResponse::CancelTestFailure
+                }
+                HandleEventResponse::Cancel(CancelEvent::Signal(ShutdownRequest::Once(e))) => {
+                    VerifResponse::CancelSignalOnce(VerifShutdown::of_event(e))
+                }
+                HandleEventResponse::Cancel(CancelEvent::Signal(ShutdownRequest::Twice)) => {
+                    VerifResponse::CancelSignalTwice
+                }
+            };
+            let handshake = self.take_handshake();
+            let emitted = std::mem::take(&mut *self.emitted.lock().unwrap());
+            VerifStep {
+                emitted,
+                handshake,
+                response,
+                state: self.state(),
+            }
+        }
+    }
+}
